@@ -97,11 +97,6 @@ def freadExact (n : Nat) (err : PyErr) : FileM Bytes := do
   let d ← fread n
   if d.length ≠ n then raise err else pure d
 
-/-- `fileobj.read(payload_size)` with a negative size: the rest of the file is read, then "truncated" -/
-def freadNegative : FileM Unit := do
-  tick (.read 0)
-  fun _ s => (.ok (), { s with pos := max s.pos s.data.length })
-
 /-- the loop of HeaderObject.parse_full on the file object -/
 def loadObjectsM : Nat → Nat → FileM (List Obj)
   | 0, _ => pure []
@@ -111,9 +106,7 @@ def loadObjectsM : Nat → Nat → FileM (List Obj)
       let h ← freadExact 24 .mutagen
       let guid := h.take 16
       let size := ofLE (h.drop 16)
-      if size < 24 then do
-        freadNegative
-        raise .mutagen
+      if size < 24 then raise .mutagen                    -- negative payload_size: "invalid object size"
       else if remaining - 24 < size - 24 then raise .mutagen
       else do
         let data ← freadExact (size - 24) .mutagen
